@@ -50,17 +50,24 @@ def e2e_oracle(ctx: Ctx, cases: List[Dict[str, Any]], res: Result, region: str, 
     if not cases:
         return
     trig = rt_common.triggers_of(cases)
-    # how many operations lie in the region of the PROVED plain-selection theorem, how many are supported but
-    # covered by correspondence + oracle only, how many lie in a finding region
-    plain_lines = []
+    # how many inputs lie in the decidable region of a PROVED pipeline theorem (C01_partial_plain / _abstract / _mixin /
+    # _mixabs; the Lean predicates themselves, asked from the driver), how many are supported but covered by
+    # correspondence + oracle only, how many lie in a finding region
+    region_lines = []
     for c in cases:
         env_, ops_ = rt_common.env_and_ops(c)
-        plain_lines.append({"op": "plainOK", **env_, "operations": ops_})
-    for t, flags in zip(trig, common.run_driver(rt_common.DRIVER, plain_lines)):
-        for ok in flags:
-            res.count("theorem-region:plain-selection (proved)" if ok and not t else
-                      "theorem-region:supported, unproved (correspondence + oracle only)" if not t else
-                      "theorem-region:inside a finding region")
+        region_lines.append({"op": "regions", **env_, "operations": ops_})
+    proved_of: List[List[str]] = []
+    for t, rg in zip(trig, common.run_driver(rt_common.DRIVER, region_lines)):
+        names = [k for k in ("plain", "abstract", "mixin", "mixabs", "unpacked") if isinstance(rg, dict) and rg.get(k)]
+        proved_of.append(names)
+        for k in names:
+            res.count("theorem-region:inside " + k + " (proved)")
+        res.count("theorem-region:inside a finding region" if t else
+                  "theorem-region:inside some proved region" if names else
+                  "theorem-region:supported, unproved (correspondence + oracle only)")
+        if isinstance(rg, dict) and not rg.get("valid", True):
+            res.count("theorem-region:Lean validDoc rejects a graphql-core-valid document")
     runs = engine.pmap_forked(e2e.run_case, [(rt_common.strip_case(c),) for c in cases], timeout=180)
     pyd_lines: List[Dict[str, Any]] = []
     pyd_index: List[Tuple[int, int, Any]] = []
@@ -83,8 +90,12 @@ def e2e_oracle(ctx: Ctx, cases: List[Dict[str, Any]], res: Result, region: str, 
                 raise common.Infra(f"e2e runner failed: {detail}")
             res.failures.append(Failure(sig, rt_common.assign_trigger(PROP, trig[ci], sig),
                                         {"sdl": c["sdl"], "queries": c["queries"], "config": c["config"], "calls": c["calls"], **extra,
-                                         "triggers": trig[ci]}, detail))
+                                         "triggers": trig[ci], "proved_regions": proved_of[ci]}, detail))
             res.count("e2e:failure:" + sig)
+            if proved_of[ci]:
+                # the real code fails the property on an input for which a pipeline THEOREM says the model passes:
+                # model or reference semantics disagree with reality here (reported as a violation like any other failure)
+                res.count("e2e:failure-inside-a-proved-region")
         # pydantic reference semantics vs real pydantic, on the responses of this run (only where the
         # class IR is known to be the real one: outside the finding regions)
         if pyd_corr and status == "ok" and r.get("gen") == "ok" and r.get("import") == "ok" and not trig[ci]:
@@ -197,6 +208,7 @@ def run(ctx: Ctx, st: Optional[LeanStatus]) -> Result:
     if driver_ok:
         n = ctx.budget(120, 1200)
         rt_common.class_ir_correspondence(ctx, rt_common.draw_cases(ctx, "ir-default", n), res, "default")
+        rt_common.class_ir_correspondence(ctx, rt_common.shape_cases(ctx), res, "shapes")
         allf: Dict[str, float] = {}
         for f in rt_common.TRIGGER_FEATURES.values():
             allf.update(f)
@@ -211,6 +223,8 @@ def run(ctx: Ctx, st: Optional[LeanStatus]) -> Result:
     for i, c in enumerate(base):
         c["config"].update(CONFIGS[i % len(CONFIGS)])
     e2e_oracle(ctx, base, res, "default", pyd_corr=driver_ok)
+    # hand-written shapes with SHARED fragment definitions (the grown documents spread every fragment once)
+    e2e_oracle(ctx, rt_common.shape_cases(ctx), res, "shapes", pyd_corr=driver_ok)
     per = ctx.budget(6, 40)
     for trig_name, feats in rt_common.TRIGGER_FEATURES.items():
         e2e_oracle(ctx, rt_common.draw_cases(ctx, "e2e-" + trig_name, per, feats), res, "region:" + trig_name, pyd_corr=False)
@@ -225,7 +239,7 @@ def run(ctx: Ctx, st: Optional[LeanStatus]) -> Result:
 
 def search(ctx: Ctx) -> Result:
     res = Result()
-    cases = rt_common.draw_cases(ctx, "search", 400)
+    cases = rt_common.shape_cases(ctx) + rt_common.draw_cases(ctx, "search", 400)
     for i, c in enumerate(cases):
         c["config"].update(CONFIGS[i % len(CONFIGS)])
     e2e_oracle(ctx, cases, res, "search", pyd_corr=False)
